@@ -16,7 +16,6 @@ package message
 
 import (
 	"fmt"
-	"sync/atomic"
 )
 
 // A PublishMessage (PUBLISH Control Packet) is sent from a Client to a Server
@@ -157,6 +156,9 @@ func (m *PublishMessage) Decode(src []byte) (int, error) {
 		return total, err
 	}
 
+	// Nothing behind the end of this packet belongs to it.
+	src = src[:total+int(m.remlen)]
+
 	n := 0
 
 	m.topic, n, err = readLPBytes(src[total:])
@@ -172,6 +174,10 @@ func (m *PublishMessage) Decode(src []byte) (int, error) {
 	// The packet identifier field is only present in the PUBLISH packets where the
 	// QoS level is 1 or 2
 	if m.QoS() != 0 {
+		if len(src[total:]) < 2 {
+			return total, fmt.Errorf("publish/Decode: Insufficient buffer size. Expecting %d, got %d", 2, len(src[total:]))
+		}
+
 		//m.packetId = binary.BigEndian.Uint16(src[total:])
 		m.packetID = src[total : total+2]
 		total += 2
@@ -229,7 +235,7 @@ func (m *PublishMessage) Encode(dst []byte) (int, error) {
 	// The packet identifier field is only present in the PUBLISH packets where the QoS level is 1 or 2
 	if m.QoS() != 0 {
 		if m.PacketID() == 0 {
-			m.SetPacketID(uint16(atomic.AddUint64(&gPacketID, 1) & 0xffff))
+			m.SetPacketID(nextPacketID())
 			//m.packetId = uint16(atomic.AddUint64(&gPacketId, 1) & 0xffff)
 		}
 
